@@ -97,6 +97,10 @@ type Disk struct {
 	ReadOnly bool  // Writable() refuses
 	closed   bool
 
+	// NoStats disables read accounting so that concurrent ReadAt calls from several goroutines
+	// of the code under test touch no shared harness state (C17, race builds).
+	NoStats bool
+
 	// Locked serialises device calls with a mutex (only for code under test that uses the
 	// device from two goroutines of its own, e.g. sync.CopyPartitionRaw).
 	Locked bool
@@ -278,10 +282,12 @@ func (d *Disk) ReadAt(p []byte, off int64) (int, error) {
 	if d.Yield != nil {
 		d.Yield("readat.pre")
 	}
-	d.St.Reads++
-	d.St.BytesRead += int64(len(p))
-	if int64(len(p)) > d.St.MaxReadReq {
-		d.St.MaxReadReq = int64(len(p))
+	if !d.NoStats {
+		d.St.Reads++
+		d.St.BytesRead += int64(len(p))
+		if int64(len(p)) > d.St.MaxReadReq {
+			d.St.MaxReadReq = int64(len(p))
+		}
 	}
 	if d.MaxReadAllowed > 0 && int64(len(p)) > d.MaxReadAllowed && int64(len(p)) > d.OversizeRead {
 		d.OversizeRead = int64(len(p))
